@@ -53,7 +53,7 @@ CHECKS = {
          'Trusts math/big; near-parallel (not parallel) 3D pairs are judged only on grids <= 2^8 (stated in the evidence counters).',
          '3/C15'),
  'C16': ('deep bitwise snapshot invariant checked after every step of random mutation histories on original, clone and clone-of-clone',
-         'Exploration of mutation histories: three aliases of each generated geometry (exact, spare-capacity and empty-non-nil storage) are mutated in random order by ten kinds of mutation; after every step the two untouched ones must still match their snapshot.',
+         'Exploration of mutation histories: three aliases of each generated geometry (exact, spare-capacity and empty-non-nil storage) are mutated in random order by ten kinds of mutation; after every step the two untouched ones must still match their snapshot; a clone must also report nil exactly where the original reports nil (FlatCoords, Ends, Endss and its rows).',
          'Trusts the snapshot code (length-and-bits comparison); Reverse on NoLayout line geometries is not driven (it does not terminate and no property covers it).',
          '3/C16'),
  'C20': ('exact rational point-segment distance oracle + structural checks + idempotence + projection metamorphic check',
